@@ -3,6 +3,8 @@ module.exports.run_case = async function (c, repo) {
     const rbql = require(path.join(repo, 'rbql-js', 'rbql.js'));
     const rows = c.rows.map(r => r.slice());
     const out = [], warns = [];
-    await rbql.query_table('select like(a1, a2)', rows, out, warns);
+    let q = 'select like(a1, a2)';
+    if (c.literal !== undefined && c.literal !== null) q = 'select like(a1, ' + c.quote + c.literal + c.quote + ')';
+    await rbql.query_table(q, rows, out, warns);
     return out.map(r => !!r[0]);
 };
